@@ -403,6 +403,88 @@ static void do_dupe(char **w) {
   free(wire);
 }
 
+/* ---- optit (C03): option filter operations, filtered iteration, coap_check_option ----
+ * optit raw|udp <hex> <script>   script: comma list of s<N> (set) u<N> (unset) g<N> (get) c (clear), or -
+ * raw: <hex> is the option region (what follows the token) of an otherwise empty PDU, in an exact-size buffer;
+ * udp: <hex> is a datagram handed to coap_pdu_parse() first ("rej" when it is refused).
+ * prints r=<results> mask=<mask> it=<num:value,...> chk=<num>=<value|none>;... (one per distinct number of the script) */
+#define OPTIT_MAX 64
+static void put_opt_list(coap_pdu_t *pdu, coap_opt_filter_t *f) {
+  coap_opt_iterator_t oi; coap_opt_t *opt; int first = 1;
+  if (coap_option_iterator_init(pdu, &oi, f)) {
+    while ((opt = coap_option_next(&oi))) {
+      if (!first) fputc(',', stdout);
+      first = 0;
+      printf("%u:", (unsigned)oi.number);
+      h_puthex(stdout, coap_opt_value(opt), coap_opt_length(opt));
+    }
+  }
+  if (first) fputc('-', stdout);
+}
+static void do_optit(char **w) {
+  int raw = !strcmp(w[1], "raw");
+  size_t len; uint8_t *b;
+  coap_pdu_t *pdu;
+  coap_opt_filter_t f;
+  unsigned long nums[OPTIT_MAX]; int nn = 0;
+  if (!raw && strcmp(w[1], "udp")) { printf("bad-op"); return; }
+  b = h_unhex(w[2], &len);
+  if (!b) { printf("bad-op"); return; }
+  /* validate the script before anything is printed */
+  if (strcmp(w[3], "-")) {
+    char *cp = strdup(w[3]), *sv = NULL; int ok = w[3][0] != ',' && w[3][strlen(w[3]) - 1] != ',' && !strstr(w[3], ",,"), cnt = 0;
+    for (char *t = strtok_r(cp, ",", &sv); t && ok; t = strtok_r(NULL, ",", &sv)) {
+      unsigned long x;
+      if (++cnt > OPTIT_MAX) ok = 0;
+      else if (!strcmp(t, "c")) continue;
+      else if ((t[0] != 's' && t[0] != 'u' && t[0] != 'g') || !get_num(t + 1, &x) || x > 65535) ok = 0;
+    }
+    free(cp);
+    if (!ok) { printf("bad-op"); free(b); return; }
+  }
+  if (raw) {
+    pdu = coap_pdu_init(0, 0, 0, len);
+    if (pdu && len > pdu->alloc_size && !coap_pdu_resize(pdu, len)) { coap_delete_pdu(pdu); pdu = NULL; }
+    if (!pdu) { printf("fail"); free(b); return; }
+    if (len) memcpy(pdu->token, b, len);
+    pdu->used_size = len;
+  } else {
+    pdu = coap_pdu_init(0, 0, 0, COAP_DEFAULT_MAX_PDU_RX_SIZE - COAP_PDU_MAX_TCP_HEADER_SIZE);
+    if (!pdu) { printf("fail"); free(b); return; }
+    if (!coap_pdu_parse(COAP_PROTO_UDP, b, len, pdu)) { printf("rej"); coap_delete_pdu(pdu); free(b); return; }
+  }
+  coap_option_filter_clear(&f);
+  printf("r=");
+  if (!strcmp(w[3], "-")) fputc('-', stdout);
+  else {
+    char *cp = strdup(w[3]), *sv = NULL;
+    for (char *t = strtok_r(cp, ",", &sv); t; t = strtok_r(NULL, ",", &sv)) {
+      unsigned long x = 0; int seen = 0;
+      if (!strcmp(t, "c")) { coap_option_filter_clear(&f); fputc('c', stdout); continue; }
+      get_num(t + 1, &x);
+      for (int i = 0; i < nn; i++) if (nums[i] == x) seen = 1;
+      if (!seen) nums[nn++] = x;
+      printf("%d", t[0] == 's' ? coap_option_filter_set(&f, (coap_option_num_t)x) :
+                   t[0] == 'u' ? coap_option_filter_unset(&f, (coap_option_num_t)x) :
+                                 coap_option_filter_get(&f, (coap_option_num_t)x));
+    }
+    free(cp);
+  }
+  printf(" mask=%u it=", (unsigned)f.mask);
+  put_opt_list(pdu, &f);
+  printf(" chk=");
+  if (!nn) fputc('-', stdout);
+  for (int i = 0; i < nn; i++) {
+    coap_opt_iterator_t oi;
+    coap_opt_t *opt = coap_check_option(pdu, (coap_option_num_t)nums[i], &oi);
+    if (i) fputc(';', stdout);
+    printf("%lu=", nums[i]);
+    if (!opt) printf("none"); else h_puthex(stdout, coap_opt_value(opt), coap_opt_length(opt));
+  }
+  coap_delete_pdu(pdu);
+  free(b);
+}
+
 static void step(char *line) {
   char *w[14];
   int n = h_words(line, w, 14);
@@ -414,6 +496,7 @@ static void step(char *line) {
     free(b);
     return;
   }
+  if (n == 4 && !strcmp(w[0], "optit")) { do_optit(w); return; }
   if (n == 7 && !strcmp(w[0], "build")) { do_build(w); return; }
   if (n == 5 && !strcmp(w[0], "edit")) { do_edit(w); return; }
   if (n == 12 && !strcmp(w[0], "dupb")) { do_dupb(w); return; }
